@@ -43,6 +43,10 @@ var c09Forms = []c09Form{
 	{"was-annotation", func(k, a string) string { return "// was: // @" + k + a + " (removed)" }},
 	{"quoted", func(k, a string) string { return "// \"// @" + k + a + "\" is the syntax" }},
 	{"after-colon", func(k, a string) string { return "// TODO: @" + k + a }},
+	// a block comment one of whose LINES looks like an annotation comment (a quoted usage snippet)
+	{"block-with-annotation-line", func(k, a string) string { return "/*\n// @" + k + a + "\n*/" }},
+	{"block-with-indented-annotation-line", func(k, a string) string { return "/* usage:\n\t// @" + k + a + "\n   more prose */" }},
+	{"block-with-bare-keyword-line", func(k, a string) string { return "/*\n@" + k + a + "\n*/" }},
 }
 
 // c09Site is one attachment site. TopLevelDoc says whether a comment placed there is a doc
